@@ -110,6 +110,7 @@ var writerSpecs = []writerSpec{
 		"lisp.(*LEnv).evalSExprCells": "deferred restore after argument evaluation",
 		"lisp.(*LEnv).Eval":           "deferred restore after an operator's sub-form evaluation (LOC.eval-restores)",
 		"lisp.(*LEnv).EvalContext":    "deferred restore, the context-taking twin of Eval (LOC.eval-restores)",
+		"lisp.(*LEnv).load":           "deferred restore after the forms of a load were evaluated in this environment (LOC.eval-restores)",
 		"lisp.findAndUnquote":         "points errors from unquote at the unquoted form, restored before return",
 		"lisp.opSetUpdate":            "points the error of a failed set! at the symbol",
 		"lisp.opHandlerBind":          "locates the handler call (made with FunCall, not by evaluating a form) at the binding's handler expression",
